@@ -8,15 +8,22 @@ pub mod csvw {
     /// the sink a writer was opened on (a file in the output directory, or the handle given at construction)
     #[verifier::external_body]
     pub struct Sink { x: u8 }
+    /// `WriteHandle::stdout_write_handle()` as the sink of a csv writer
+    #[verifier::external_body]
+    pub fn stdout_sink() -> Sink { unimplemented!() }
     pub struct Writer { pub recs: Ghost<Seq<Seq<Seq<char>>>> }
     pub open spec fn texts(v: Seq<String>) -> Seq<Seq<char>> { Seq::new(v.len(), |i: int| v[i]@) }
     /// a record given by reference or by value
     pub trait Record { spec fn rec(&self) -> Seq<Seq<char>>; }
     impl<'a> Record for &'a Vec<String> { open spec fn rec(&self) -> Seq<Seq<char>> { texts((*self)@) } }
+    impl<'a> Record for &'a Vec<&'static str> { open spec fn rec(&self) -> Seq<Seq<char>> { Seq::new((*self)@.len(), |i: int| (*self)@[i]@) } }
     impl Record for Vec<String> { open spec fn rec(&self) -> Seq<Seq<char>> { texts(self@) } }
     /// H: `csv::WriterBuilder::new().has_headers(true).from_writer(writer)`
     #[verifier::external_body]
     pub fn writer_from(w: Sink) -> (r: Writer) ensures r.recs@.len() == 0 { unimplemented!() }
+    /// H: the same builder call on a borrowed `&mut dyn Write`
+    #[verifier::external_body]
+    pub fn writer_from_dyn(w: &mut Sink) -> (r: Writer) ensures r.recs@.len() == 0 { unimplemented!() }
     impl Writer {
         #[verifier::external_body]
         pub fn write_record<R: Record>(&mut self, r: R) -> (res: Result<(), CsvErr>)
